@@ -1,7 +1,891 @@
-(* C11 proofs (under construction) *)
-From Coq Require Import QArith Qabs Qround.
+(* C11 — proofs about the exact branches of model/C11_Num.v. *)
+From Coq Require Import QArith Qabs Qround Qpower Qcanon Lia.
 From verif Require Import lib.Base model.C11_Num model.C11.
 Open Scope Z_scope.
 
-Lemma pow_zero_neg_panics : call CPow [NInt 0; NInt (-1)] None = RPanic.
+(* ------------------------------------------------------------------ *)
+(* Prop-level vocabulary *)
+Definition exact (n : num) : Prop := is_exact n = true.
+(* an exact number as Elvish holds it *)
+Definition exactc (n : num) : Prop := is_exact n = true /\ canonical n = true.
+(* v is exact, in canonical form, and its value is q *)
+Definition good (v : num) (q : Q) : Prop := is_exact v = true /\ canonical v = true /\ (qv v == q)%Q.
+
+Lemma in_int_iff z : in_int z = true <-> min_int <= z <= max_int.
+Proof. unfold in_int. rewrite andb_true_iff, !Z.leb_le. tauto. Qed.
+
+Lemma Qred_idem q : Qred (Qred q) = Qred q.
+Proof. apply Qred_complete, Qred_correct. Qed.
+
+Lemma q_eqb_refl a : q_eqb a a = true.
+Proof. unfold q_eqb. rewrite Z.eqb_refl, Pos.eqb_refl. reflexivity. Qed.
+
+Lemma q_eqb_eq a b : q_eqb a b = true -> a = b.
+Proof. destruct a as [n d], b as [n' d']. unfold q_eqb. simpl. intros H.
+  apply andb_true_iff in H as [H1 H2]. apply Z.eqb_eq in H1. apply Pos.eqb_eq in H2. congruence. Qed.
+
+Lemma good_ext v q q' : (q == q')%Q -> good v q -> good v q'.
+Proof. intros E (a & b & c). repeat split; auto. rewrite c. exact E. Qed.
+
+Lemma normalize_big_good z : good (normalize_big z) (z # 1).
+Proof. unfold normalize_big, good. destruct (in_int z) eqn:E; simpl; rewrite ?E; repeat split; reflexivity. Qed.
+
+Lemma den1_value q : Qden q = 1%positive -> (Qnum q # 1 == q)%Q.
+Proof. destruct q as [n d]. simpl. intros ->. reflexivity. Qed.
+
+Lemma normalize_rat_good q : good (normalize_rat q) q.
+Proof. unfold normalize_rat. destruct (Pos.eqb (Qden (Qred q)) 1) eqn:E.
+  - apply Pos.eqb_eq in E. eapply good_ext; [|apply normalize_big_good].
+    rewrite (den1_value _ E). apply Qred_correct.
+  - unfold good. cbn [is_exact canonical qv]. rewrite Qred_idem, q_eqb_refl, E.
+    repeat split; try reflexivity. apply Qred_correct.
+Qed.
+
+(* the raw Go values a builtin may return *)
+Definition rawok (n : num) : Prop :=
+  match n with NInt z => in_int z = true | NFloat _ => False | _ => True end.
+
+Lemma from_go_good n : rawok n -> good (from_go n) (qv n).
+Proof. destruct n as [z|z|q|f]; simpl; intros H.
+  - repeat split; simpl; auto; try reflexivity.
+  - apply normalize_big_good.
+  - apply normalize_rat_good.
+  - contradiction.
+Qed.
+
+Lemma good_from_go v q : good v q -> from_go v = v.
+Proof. intros (a & b & c). destruct v as [z|z|r|f]; cbn [from_go canonical is_exact] in *; auto; try discriminate.
+  - unfold normalize_big. apply negb_true_iff in b. rewrite b. reflexivity.
+  - apply andb_true_iff in b as [b1 b2]. apply q_eqb_eq in b1.
+    unfold normalize_rat. rewrite b1. apply negb_true_iff in b2. rewrite b2. reflexivity.
+Qed.
+
+(* ------------------------------------------------------------------ *)
+(* unification *)
+Lemma tmax_rank a b : rank (tmax a b) = Z.max (rank a) (rank b).
+Proof. unfold tmax. destruct (rank a <? rank b) eqn:E; [apply Z.ltb_lt in E|apply Z.ltb_ge in E]; lia. Qed.
+
+Lemma unify_type_rank l : forall t,
+  rank t <= rank (unify_type l t) /\
+  Forall (fun n => rank (num_type n) <= rank (unify_type l t)) l.
+Proof. induction l as [|n l IH]; intros t; unfold unify_type; simpl.
+  - split; [lia|constructor].
+  - destruct (IH (tmax t (num_type n))) as [H1 H2]. unfold unify_type in *.
+    rewrite tmax_rank in H1. split; [lia|]. constructor; [lia|exact H2]. Qed.
+
+Lemma unify_type_in l : forall t,
+  unify_type l t = t \/ exists n, In n l /\ unify_type l t = num_type n.
+Proof. induction l as [|n l IH]; intros t; unfold unify_type; simpl; [left; reflexivity|].
+  destruct (IH (tmax t (num_type n))) as [H|(m & Hm & H)]; unfold unify_type in *.
+  - rewrite H. unfold tmax. destruct (rank t <? rank (num_type n)); [right; exists n; auto|left; reflexivity].
+  - right. exists m. auto. Qed.
+
+Lemma rank_inj a b : rank a = rank b -> a = b.
+Proof. destruct a, b; simpl; intros; try reflexivity; discriminate. Qed.
+
+Lemma exact_rank n : exact n <-> rank (num_type n) <= 2.
+Proof. unfold exact. destruct n; simpl; split; intros; try reflexivity; try lia; discriminate. Qed.
+
+Lemma exact_int_rank n : is_exact_int n = true <-> rank (num_type n) <= 1.
+Proof. destruct n; simpl; split; intros; try reflexivity; try lia; discriminate. Qed.
+
+Lemma unify_type_exact l t : Forall exact l -> rank t <= 2 -> rank (unify_type l t) <= 2.
+Proof. intros Hl Ht. destruct (unify_type_in l t) as [->|(n & Hn & ->)]; [exact Ht|].
+  rewrite Forall_forall in Hl. apply exact_rank, Hl, Hn. Qed.
+
+Lemma to_rat_qv n : exact n -> to_rat n = qv n.
+Proof. destruct n; simpl; intros H; try reflexivity; discriminate. Qed.
+
+Lemma to_big_qv n : is_exact_int n = true -> to_big n # 1 = qv n.
+Proof. destruct n; simpl; intros H; try reflexivity; discriminate. Qed.
+
+Lemma map_to_rat l : Forall exact l -> map to_rat l = map qv l.
+Proof. induction 1 as [|n l H _ IH]; simpl; [reflexivity|]. rewrite IH, to_rat_qv by exact H. reflexivity. Qed.
+
+Lemma map_to_big l : Forall (fun n => is_exact_int n = true) l ->
+  map inject_Z (map to_big l) = map qv l.
+Proof. induction 1 as [|n l H _ IH]; simpl; [reflexivity|]. rewrite IH. unfold inject_Z at 1.
+  rewrite to_big_qv by exact H. reflexivity. Qed.
+
+Lemma map_to_int l : Forall (fun n => num_type n = TInt) l ->
+  map inject_Z (map to_int l) = map qv l /\ Forall (fun z => in_int z = true -> True) (map to_int l).
+Proof. induction 1 as [|n l H _ [IH1 IH2]]; simpl; [split; [reflexivity|constructor]|].
+  split; [|constructor; auto]. rewrite IH1. destruct n; try discriminate. reflexivity. Qed.
+
+(* the three shapes an all-exact argument list can unify to *)
+Inductive unified (l : list num) : numslice -> Prop :=
+| UInt : Forall (fun n => num_type n = TInt) l -> unified l (SInt (map to_int l))
+| UBig : Forall (fun n => is_exact_int n = true) l -> unified l (SBig (map to_big l))
+| URat : unified l (SRat (map to_rat l)).
+
+Lemma unify_exact l t : Forall exact l -> rank t <= 2 -> unified l (unify l t).
+Proof. intros Hl Ht. pose proof (unify_type_exact l t Hl Ht) as Hr.
+  destruct (unify_type_rank l t) as [H1 H2]. unfold unify.
+  destruct (unify_type l t) eqn:E; simpl in *.
+  - apply UInt. eapply Forall_impl; [|exact H2]. intros n Hn. apply rank_inj. simpl.
+    cbv beta in Hn. destruct (num_type n); simpl in *; lia.
+  - apply UBig. eapply Forall_impl; [|exact H2]. intros n Hn. apply exact_int_rank. exact Hn.
+  - apply URat.
+  - lia.
+Qed.
+
+Lemma unify_min_big l : unify l TBig <> SInt (map to_int l) \/ l = [].
+Proof. left. unfold unify. destruct (unify_type_rank l TBig) as [H _].
+  destruct (unify_type l TBig); simpl in H; try lia; discriminate. Qed.
+
+Lemma unify_big_not_int l zs : unify l TBig = SInt zs -> False.
+Proof. unfold unify. destruct (unify_type_rank l TBig) as [H _].
+  destruct (unify_type l TBig); simpl in H; try lia; discriminate. Qed.
+
+Lemma unify_rat_exact l : Forall exact l -> unify l TRat = SRat (map to_rat l).
+Proof. intros Hl. pose proof (unify_type_exact l TRat Hl ltac:(simpl; lia)) as Hr.
+  destruct (unify_type_rank l TRat) as [H1 _]. unfold unify.
+  destruct (unify_type l TRat); simpl in *; try lia. reflexivity. Qed.
+
+(* ------------------------------------------------------------------ *)
+(* folds against Q *)
+Lemma fold_add_Z zs : forall a,
+  (inject_Z (fold_left Z.add zs a) == inject_Z a + qsum (map inject_Z zs))%Q.
+Proof. induction zs as [|z zs IH]; intros a; simpl.
+  - ring.
+  - rewrite IH, inject_Z_plus. ring. Qed.
+
+Lemma fold_radd qs : forall a, (fold_left radd qs a == a + qsum qs)%Q.
+Proof. induction qs as [|q qs IH]; intros a; simpl.
+  - ring.
+  - rewrite IH. unfold radd. rewrite Qred_correct. ring. Qed.
+
+Lemma fold_sub_Z zs : forall a,
+  (inject_Z (fold_left Z.sub zs a) == inject_Z a - qsum (map inject_Z zs))%Q.
+Proof. induction zs as [|z zs IH]; intros a; simpl.
+  - ring.
+  - rewrite IH. unfold Z.sub. rewrite inject_Z_plus, inject_Z_opp. ring. Qed.
+
+Lemma fold_rsub qs : forall a, (fold_left rsub qs a == a - qsum qs)%Q.
+Proof. induction qs as [|q qs IH]; intros a; simpl.
+  - ring.
+  - rewrite IH. unfold rsub. rewrite Qred_correct. ring. Qed.
+
+Lemma fold_mul_Z zs : forall a,
+  (inject_Z (fold_left Z.mul zs a) == inject_Z a * qprod (map inject_Z zs))%Q.
+Proof. induction zs as [|z zs IH]; intros a; simpl.
+  - ring.
+  - rewrite IH, inject_Z_mult. ring. Qed.
+
+Lemma fold_rmul qs : forall a, (fold_left rmul qs a == a * qprod qs)%Q.
+Proof. induction qs as [|q qs IH]; intros a; simpl.
+  - ring.
+  - rewrite IH. unfold rmul. rewrite Qred_correct. ring. Qed.
+
+Lemma fold_rquo qs : forall a, (fold_left rquo qs a == a / qprod qs)%Q.
+Proof. induction qs as [|q qs IH]; intros a; simpl.
+  - unfold Qdiv. change (/ (1 # 1))%Q with (1#1)%Q. ring.
+  - rewrite IH. unfold rquo. rewrite Qred_correct. unfold Qdiv. rewrite Qinv_mult_distr. ring. Qed.
+
+(* ------------------------------------------------------------------ *)
+(* + *)
+Theorem add_exact l : Forall exact l ->
+  exists v, call CAdd l None = RVals [v] /\ good v (qsum (map qv l)).
+Proof. intros Hl. unfold call, call_raw, add.
+  pose proof (unify_exact l TBig Hl ltac:(simpl; lia)) as U.
+  inversion U as [H E|H E|E].
+  - exfalso. eapply unify_big_not_int. symmetry. exact E.
+  - simpl. eexists. split; [reflexivity|].
+    rewrite (good_from_go _ _ (normalize_big_good _)).
+    eapply good_ext; [|apply normalize_big_good].
+    change (?z # 1)%Q with (inject_Z z). rewrite fold_add_Z, map_to_big by exact H.
+    unfold inject_Z. ring.
+  - simpl. eexists. split; [reflexivity|].
+    rewrite (good_from_go _ _ (normalize_rat_good _)).
+    eapply good_ext; [|apply normalize_rat_good].
+    rewrite fold_radd, map_to_rat by exact Hl. unfold q0. ring.
+Qed.
+
+(* ------------------------------------------------------------------ *)
+(* - *)
+Theorem sub_exact a r : Forall exact (a :: r) ->
+  exists v, call CSub (a :: r) None = RVals [v] /\
+    good v (match r with [] => - qv a | _ => qv a - qsum (map qv r) end)%Q.
+Proof. intros Hl. unfold call, call_raw, sub.
+  pose proof (unify_exact (a :: r) TBig Hl ltac:(simpl; lia)) as U.
+  inversion U as [H E|H E|E].
+  - exfalso. eapply unify_big_not_int. symmetry. exact E.
+  - inversion H as [|? ? Ha Hr]; subst. destruct r as [|b r']; cbn [map map_result from_go].
+    + eexists. split; [reflexivity|]. eapply good_ext; [|apply normalize_big_good].
+      rewrite <- (to_big_qv a Ha). unfold Qopp. simpl. reflexivity.
+    + eexists. split; [reflexivity|]. eapply good_ext; [|apply normalize_big_good].
+      change (?z # 1)%Q with (inject_Z z). change (to_big b :: map to_big r') with (map to_big (b :: r')).
+      rewrite fold_sub_Z, map_to_big by exact Hr. rewrite <- (to_big_qv a Ha). reflexivity.
+  - inversion Hl as [|? ? Ha Hr]; subst. destruct r as [|b r']; cbn [map map_result from_go].
+    + eexists. split; [reflexivity|]. eapply good_ext; [|apply normalize_rat_good].
+      rewrite (to_rat_qv a Ha). reflexivity.
+    + eexists. split; [reflexivity|]. eapply good_ext; [|apply normalize_rat_good].
+      change (to_rat b :: map to_rat r') with (map to_rat (b :: r')).
+      rewrite fold_rsub, map_to_rat by exact Hr. rewrite (to_rat_qv a Ha). reflexivity.
+Qed.
+
+(* ------------------------------------------------------------------ *)
+(* * *)
+Lemma exact_not_inf n : exact n -> is_inf n = false.
+Proof. destruct n; simpl; intros H; try reflexivity; discriminate. Qed.
+
+Lemma mul_scan_exact l : forall h, Forall exact l ->
+  mul_scan l h = (h || existsb is_int0 l, false).
+Proof. induction l as [|n l IH]; intros h Hl; simpl.
+  - rewrite orb_false_r. reflexivity.
+  - inversion Hl; subst. rewrite exact_not_inf by assumption. rewrite IH by assumption.
+    rewrite orb_assoc. reflexivity. Qed.
+
+Lemma is_int0_eq n : is_int0 n = true -> n = NInt 0.
+Proof. destruct n as [z| | |]; simpl; try discriminate. destruct z; try discriminate. reflexivity. Qed.
+
+Lemma qprod_zero l : existsb is_int0 l = true -> (qprod (map qv l) == 0)%Q.
+Proof. induction l as [|n l IH]; simpl; [discriminate|]. intros H. apply orb_true_iff in H as [H|H].
+  - apply is_int0_eq in H. subst. simpl. ring.
+  - rewrite IH by exact H. ring. Qed.
+
+Theorem mul_exact l : Forall exact l ->
+  exists v, call CMul l None = RVals [v] /\ good v (qprod (map qv l)).
+Proof. intros Hl. unfold call, call_raw, mul. rewrite mul_scan_exact by exact Hl. simpl orb. simpl negb.
+  rewrite andb_true_r. destruct (existsb is_int0 l) eqn:Z0.
+  - simpl. eexists. split; [reflexivity|]. repeat split; try reflexivity.
+    simpl. rewrite qprod_zero by exact Z0. reflexivity.
+  - pose proof (unify_exact l TBig Hl ltac:(simpl; lia)) as U.
+    inversion U as [H E|H E|E].
+    + exfalso. eapply unify_big_not_int. symmetry. exact E.
+    + simpl. eexists. split; [reflexivity|].
+      rewrite (good_from_go _ _ (normalize_big_good _)).
+      eapply good_ext; [|apply normalize_big_good].
+      change (?z # 1)%Q with (inject_Z z). rewrite fold_mul_Z, map_to_big by exact H.
+      unfold inject_Z. ring.
+    + simpl. eexists. split; [reflexivity|].
+      rewrite (good_from_go _ _ (normalize_rat_good _)).
+      eapply good_ext; [|apply normalize_rat_good].
+      rewrite fold_rmul, map_to_rat by exact Hl. unfold q1. ring.
+Qed.
+
+(* ------------------------------------------------------------------ *)
+(* canonical zero is the machine int 0 *)
+Lemma exactc_exact n : exactc n -> exact n.
+Proof. intros [H _]. exact H. Qed.
+
+Lemma Forall_exactc_exact l : Forall exactc l -> Forall exact l.
+Proof. intros H. eapply Forall_impl; [|exact H]. apply exactc_exact. Qed.
+
+Lemma Qeq0_num q : (q == 0)%Q <-> Qnum q = 0.
+Proof. unfold Qeq. simpl. rewrite Z.mul_1_r. tauto. Qed.
+
+Lemma canonical_zero n : exactc n -> ((qv n == 0)%Q <-> is_int0 n = true).
+Proof. intros [He Hc]. destruct n as [z|z|q|f]; simpl in *; try discriminate.
+  - rewrite Qeq0_num. simpl. destruct z; split; intros; try reflexivity; try discriminate.
+  - rewrite Qeq0_num. simpl. split; [|discriminate]. intros ->. discriminate.
+  - split; [|discriminate]. intros H. apply Qeq0_num in H.
+    apply andb_true_iff in Hc as [H1 H2]. apply q_eqb_eq in H1.
+    destruct q as [n d]. simpl in H. subst n. rewrite <- H1 in H2. discriminate.
+Qed.
+
+Lemma q_is0_qv n : exactc n -> q_is0 (to_rat n) = is_int0 n.
+Proof. intros H. pose proof (canonical_zero n H) as C. rewrite <- to_rat_qv in C by apply H.
+  rewrite Qeq0_num in C. unfold q_is0. destruct (is_int0 n).
+  - apply Z.eqb_eq, C. reflexivity.
+  - apply Z.eqb_neq. intros E. apply C in E. discriminate. Qed.
+
+Lemma existsb_q_is0 l : Forall exactc l ->
+  existsb q_is0 (map to_rat l) = existsb is_int0 l.
+Proof. induction 1 as [|n l H _ IH]; simpl; [reflexivity|]. rewrite IH, q_is0_qv by exact H. reflexivity. Qed.
+
+(* ------------------------------------------------------------------ *)
+(* / *)
+Theorem div_by_exact_zero_raises a r :
+  existsb is_int0 r = true -> call CDiv (a :: r) None = RErr EDivZero.
+Proof. intros H. unfold call, call_raw, div. rewrite H. reflexivity. Qed.
+
+Theorem div_exact a r : Forall exactc (a :: r) ->
+  existsb is_int0 r = false ->
+  ~ (is_int0 a = true /\ r = []) ->
+  exists v, call CDiv (a :: r) None = RVals [v] /\
+    good v (match r with [] => / qv a | _ => qv a / qprod (map qv r) end)%Q.
+Proof. intros Hc Hz Hd. pose proof (Forall_exactc_exact _ Hc) as Hl.
+  inversion Hc as [|? ? Hca Hcr]; subst. inversion Hl as [|? ? Ha Hr]; subst.
+  unfold call, call_raw, div. rewrite Hz. destruct (is_int0 a) eqn:A0.
+  - destruct r as [|b r']; [exfalso; apply Hd; auto|].
+    simpl. eexists. split; [reflexivity|]. repeat split; try reflexivity.
+    apply is_int0_eq in A0. subst a. simpl. unfold Qdiv. ring.
+  - rewrite unify_rat_exact by exact Hl. cbn [map]. destruct r as [|b r'].
+    + rewrite q_is0_qv, A0 by exact Hca. cbn [map_result map from_go].
+      eexists. split; [reflexivity|]. eapply good_ext; [|apply normalize_rat_good].
+      unfold rinv. rewrite Qred_correct, (to_rat_qv a Ha). reflexivity.
+    + change (to_rat b :: map to_rat r') with (map to_rat (b :: r')).
+      rewrite existsb_q_is0, Hz by exact Hcr. cbn [map_result map from_go].
+      eexists. split; [reflexivity|]. eapply good_ext; [|apply normalize_rat_good].
+      change (to_rat b :: map to_rat r') with (map to_rat (b :: r')).
+      rewrite fold_rquo, map_to_rat, (to_rat_qv a Ha) by exact Hr. reflexivity.
+Qed.
+
+(* the faithful model returns 0 for the reciprocal of exact zero *)
+Lemma div_zero_alone : call CDiv [NInt 0] None = RVals [NInt 0].
 Proof. reflexivity. Qed.
+
+(* ------------------------------------------------------------------ *)
+(* % *)
+Theorem rem_nonint_raises a b :
+  is_exact_int a = false \/ is_exact_int b = false ->
+  call CRem [a; b] None = RErr ENotExactInt.
+Proof. intros [H|H]; unfold call, call_raw, rem; rewrite H; simpl; [reflexivity|].
+  destruct (is_exact_int a); reflexivity. Qed.
+
+Lemma exactc_int_zero n : exactc n -> is_exact_int n = true -> (to_big n = 0 <-> is_int0 n = true).
+Proof. intros Hc Hi. rewrite <- (canonical_zero n Hc), <- (to_big_qv n Hi), Qeq0_num. simpl. tauto. Qed.
+
+Lemma rem_in_int x y : in_int y = true -> y <> 0 -> in_int (Z.rem x y) = true.
+Proof. intros Hy Hn. apply in_int_iff in Hy. apply in_int_iff.
+  pose proof (Z.rem_bound_abs x y Hn). unfold min_int, max_int in *. lia. Qed.
+
+Theorem rem_exact a b : exactc a -> exactc b ->
+  is_exact_int a = true -> is_exact_int b = true ->
+  (if is_int0 b then call CRem [a; b] None = RErr EDivZero
+   else exists v, call CRem [a; b] None = RVals [v] /\ good v (Z.rem (to_big a) (to_big b) # 1)).
+Proof. intros Ha Hb Ia Ib. unfold call, call_raw, rem. rewrite Ia, Ib. simpl negb. cbv iota.
+  destruct (is_int0 b) eqn:B0; [reflexivity|].
+  assert (Hb0 : to_big b <> 0).
+  { intros E. apply (exactc_int_zero b Hb Ib) in E. congruence. }
+  destruct a as [x|x| |]; try discriminate; destruct b as [y|y| |]; try discriminate;
+    cbn [to_big] in *; try (apply Z.eqb_neq in Hb0 as Hb0'; rewrite Hb0');
+    cbn [map_result map from_go]; eexists; (split; [reflexivity|]);
+    try apply normalize_big_good.
+  repeat split; try reflexivity. simpl. apply rem_in_int; [apply Hb|exact Hb0].
+Qed.
+
+(* ------------------------------------------------------------------ *)
+(* exact-zero rules, also with inexact arguments *)
+Lemma mul_scan_noinf l : forall h, existsb is_inf l = false ->
+  mul_scan l h = (h || existsb is_int0 l, false).
+Proof. induction l as [|n l IH]; intros h Hl; simpl in *.
+  - rewrite orb_false_r. reflexivity.
+  - apply orb_false_iff in Hl as [H1 H2]. rewrite H1, IH by exact H2.
+    rewrite orb_assoc. reflexivity. Qed.
+
+Theorem mul_exact_zero_rule l :
+  existsb is_int0 l = true -> existsb is_inf l = false -> call CMul l None = RVals [NInt 0].
+Proof. intros H0 Hi. unfold call, call_raw, mul. rewrite mul_scan_noinf by exact Hi.
+  rewrite H0. reflexivity. Qed.
+
+Theorem div_exact_zero_rule a r :
+  is_int0 a = true -> existsb is_int0 r = false -> call CDiv (a :: r) None = RVals [NInt 0].
+Proof. intros Ha Hr. unfold call, call_raw, div. rewrite Hr, Ha. reflexivity. Qed.
+
+(* ------------------------------------------------------------------ *)
+(* math:abs *)
+Lemma wrap_id z : in_int z = true -> wrap z = z.
+Proof. intros H. apply in_int_iff in H. unfold wrap, min_int, max_int, two64 in *.
+  rewrite Z.mod_small; lia. Qed.
+
+Lemma good_self n : exactc n -> good n (qv n).
+Proof. intros [a b]. repeat split; auto; reflexivity. Qed.
+
+Theorem abs_exact n : exactc n ->
+  exists v, call CAbs [n] None = RVals [v] /\ good v (Qabs (qv n)).
+Proof. intros Hn. pose proof Hn as [He Hc]. unfold call, call_raw, unary. cbn [map_result map].
+  eexists. split; [reflexivity|].
+  destruct n as [z|z|q|f]; try discriminate; cbn [abs].
+  - cbn [canonical] in Hc. destruct (z <? 0) eqn:N.
+    + apply Z.ltb_lt in N. destruct (z =? min_int) eqn:M.
+      * apply Z.eqb_eq in M. subst. cbn [from_go]. eapply good_ext; [|apply normalize_big_good]. reflexivity.
+      * apply Z.eqb_neq in M. cbn [from_go]. pose proof Hc as Hc'. apply in_int_iff in Hc'.
+        assert (I : in_int (- z) = true) by (apply in_int_iff; unfold min_int, max_int in *; lia).
+        rewrite wrap_id by exact I. repeat split; auto. cbn [qv Qabs]. rewrite Z.abs_neq by lia. reflexivity.
+    + apply Z.ltb_ge in N. cbn [from_go]. repeat split; auto. cbn [qv Qabs]. rewrite Z.abs_eq by lia. reflexivity.
+  - destruct (z <? 0) eqn:N; cbn [from_go].
+    + eapply good_ext; [|apply normalize_big_good]. reflexivity.
+    + apply Z.ltb_ge in N. change (normalize_big z) with (from_go (NBig z)).
+      rewrite (good_from_go _ _ (good_self _ Hn)). eapply good_ext; [|apply good_self; exact Hn].
+      cbn [qv Qabs]. rewrite Z.abs_eq by lia. reflexivity.
+  - destruct (Qnum q <? 0) eqn:N; cbn [from_go].
+    + eapply good_ext; [|apply normalize_rat_good]. reflexivity.
+    + apply Z.ltb_ge in N. change (normalize_rat q) with (from_go (NRat q)).
+      rewrite (good_from_go _ _ (good_self _ Hn)). eapply good_ext; [|apply good_self; exact Hn].
+      cbn [qv]. destruct q as [a d]. cbn [Qabs Qnum] in *. rewrite Z.abs_eq by lia. reflexivity.
+Qed.
+
+(* ------------------------------------------------------------------ *)
+(* math:min / math:max *)
+Definition qpick (lt : bool) : Q -> Q -> Q := if lt then q_min else q_max.
+
+Lemma q_lt_Z y n : q_lt (inject_Z y) (inject_Z n) = (y <? n).
+Proof. unfold q_lt, Qle_bool, inject_Z. simpl. rewrite !Z.mul_1_r. symmetry. apply Z.ltb_antisym. Qed.
+
+Lemma q_ltb_lt a b : q_ltb a b = q_lt a b.
+Proof. unfold q_ltb, q_lt, Qle_bool, Qcompare.
+  destruct (Z.compare_spec (Qnum a * QDen b) (Qnum b * QDen a)) as [E|E|E].
+  - symmetry. apply negb_false_iff, Z.leb_le. lia.
+  - symmetry. apply negb_true_iff, Z.leb_gt. lia.
+  - symmetry. apply negb_false_iff, Z.leb_le. lia. Qed.
+
+Lemma pick_z_spec (lt : bool) zs : forall x,
+  inject_Z (fold_left (fun n y : Z => if (if lt then y <? n else n <? y) then y else n) zs x)
+  = fold_left (qpick lt) (map inject_Z zs) (inject_Z x).
+Proof. induction zs as [|z zs IH]; intros x; simpl; [reflexivity|]. rewrite IH. f_equal.
+  destruct lt; unfold qpick, q_min, q_max; rewrite q_lt_Z; destruct (_ <? _); reflexivity. Qed.
+
+Lemma pick_q_spec (lt : bool) qs : forall x,
+  fold_left (fun n y : Q => if (if lt then q_ltb y n else q_ltb n y) then y else n) qs x
+  = fold_left (qpick lt) qs x.
+Proof. induction qs as [|q qs IH]; intros x; simpl; [reflexivity|]. rewrite IH. f_equal.
+  destruct lt; unfold qpick, q_min, q_max; rewrite q_ltb_lt; reflexivity. Qed.
+
+Lemma fold_pick_in {A} (f : A -> A -> A) (Hf : forall n y, f n y = n \/ f n y = y) r :
+  forall x, In (fold_left f r x) (x :: r).
+Proof. induction r as [|y r IH]; intros x; [left; reflexivity|].
+  cbn [fold_left]. destruct (IH (f x y)) as [H|H].
+  - destruct (Hf x y) as [E|E]; [left|right; left]; rewrite <- E at 1; exact H.
+  - right; right; exact H. Qed.
+
+Theorem minmax_exact (lt : bool) a r : Forall exactc (a :: r) ->
+  exists v, call (if lt then CMin else CMax) (a :: r) None = RVals [v] /\
+    good v (fold_left (qpick lt) (map qv r) (qv a)).
+Proof. intros Hc. pose proof (Forall_exactc_exact _ Hc) as Hl.
+  assert (E : call (if lt then CMin else CMax) (a :: r) None = map_result from_go (minmax lt (a :: r)))
+    by (destruct lt; reflexivity).
+  rewrite E. unfold minmax.
+  pose proof (unify_exact (a :: r) TInt Hl ltac:(simpl; lia)) as U.
+  inversion U as [H E'|H E'|E']; cbn [map_result map from_go pick_z pick_q].
+  - (* all machine ints: the result is one of the arguments *)
+    eexists. split; [reflexivity|].
+    set (f := fun n y : Z => if (if lt then y <? n else n <? y) then y else n).
+    assert (Hin : In (fold_left f (map to_int r) (to_int a)) (map to_int (a :: r))).
+    { apply (fold_pick_in f). intros n y. unfold f. destruct (if lt then y <? n else n <? y); auto. }
+    apply in_map_iff in Hin as (m & Em & Hm).
+    rewrite Forall_forall in Hc, H. pose proof (Hc m Hm) as [_ Cm]. pose proof (H m Hm) as Tm.
+    destruct m as [z| | |]; try discriminate. cbn [to_int] in Em. cbn [canonical] in Cm.
+    repeat split; try reflexivity.
+    + cbn [canonical]. rewrite <- Em. exact Cm.
+    + cbn [qv]. change (?z # 1)%Q with (inject_Z z). unfold f. rewrite pick_z_spec.
+      inversion Hl as [|? ? Ha Hr]; subst.
+      assert (H' : Forall (fun n => num_type n = TInt) (a :: r)) by (apply Forall_forall; exact H).
+      inversion H' as [|? ? Ta Tr]; subst.
+      destruct (map_to_int r Tr) as [-> _]. destruct a; try discriminate. reflexivity.
+  - eexists. split; [reflexivity|]. eapply good_ext; [|apply normalize_big_good].
+    change (?z # 1)%Q with (inject_Z z). rewrite pick_z_spec.
+    inversion H as [|? ? Ia Ir]; subst. rewrite map_to_big by exact Ir.
+    unfold inject_Z. rewrite to_big_qv by exact Ia. reflexivity.
+  - eexists. split; [reflexivity|]. eapply good_ext; [|apply normalize_rat_good].
+    rewrite pick_q_spec. inversion Hl as [|? ? Ha Hr]; subst.
+    rewrite map_to_rat, to_rat_qv by assumption. reflexivity.
+Qed.
+
+(* ------------------------------------------------------------------ *)
+(* math:pow *)
+Lemma pow_pos_bin_spec z p : pow_pos_bin z p = z ^ Zpos p.
+Proof. induction p as [p IH|p IH|]; cbn [pow_pos_bin].
+  - rewrite IH, Pos2Z.inj_xI, Z.pow_add_r, Z.pow_twice_r, Z.pow_1_r by lia. ring.
+  - rewrite IH, Pos2Z.inj_xO, Z.pow_twice_r. reflexivity.
+  - rewrite Z.pow_1_r. reflexivity. Qed.
+
+Lemma zpow_spec z e : 0 <= e -> zpow z e = z ^ e.
+Proof. destruct e as [|p|p]; intros H; cbn [zpow]; [reflexivity|apply pow_pos_bin_spec|lia]. Qed.
+
+(* the branch of pow taken for exponents other than the machine ints 0, 1, -1 *)
+Definition pow_general (b : num) (ez : Z) : result :=
+  if is_exact_int b && (0 <? ez) then RVals [NBig (zpow (to_big b) ez)]
+  else
+    let r := to_rat b in
+    if ez <? 0 then
+      if q_is0 r then RPanic
+      else
+        let r' := rinv r in
+        let ez' := - ez in
+        RVals [NRat (setfrac (zpow (Qnum r') ez') (zpow (Zpos (Qden r')) ez'))]
+    else RVals [NRat (setfrac (zpow (Qnum r) ez) (zpow (Zpos (Qden r)) ez))].
+
+Lemma setfrac_pow q p :
+  (setfrac (zpow (Qnum q) (Zpos p)) (zpow (Zpos (Qden q)) (Zpos p)) == Qpower q (Zpos p))%Q.
+Proof. destruct q as [n d]. unfold setfrac. rewrite Qred_correct. cbn [Qnum Qden zpow].
+  rewrite !pow_pos_bin_spec, <- Pos2Z.inj_pow. cbn [Z.to_pos Qpower].
+  rewrite Qpower_decomp_positive. reflexivity. Qed.
+
+Lemma pow_general_good b ez : exactc b ->
+  ~ (is_int0 b = true /\ ez < 0) ->
+  exists v, map_result from_go (pow_general b ez) = RVals [v] /\ good v (Qpower (qv b) ez).
+Proof. intros Hb Hd. pose proof Hb as [He Hc]. unfold pow_general.
+  destruct (is_exact_int b && (0 <? ez)) eqn:C.
+  - apply andb_true_iff in C as [Ib Pz]. apply Z.ltb_lt in Pz.
+    cbn [map_result map from_go]. eexists. split; [reflexivity|].
+    eapply good_ext; [|apply normalize_big_good].
+    rewrite zpow_spec by lia. change (?z # 1)%Q with (inject_Z z).
+    rewrite Zpower_Qpower by lia. unfold inject_Z. rewrite to_big_qv by exact Ib. reflexivity.
+  - cbv zeta. destruct (ez <? 0) eqn:N.
+    + apply Z.ltb_lt in N. rewrite q_is0_qv by exact Hb. destruct (is_int0 b) eqn:B0.
+      * exfalso. apply Hd. split; [reflexivity|exact N].
+      * destruct ez as [|p|p]; try lia. cbn [Z.opp map_result map from_go].
+        eexists. split; [reflexivity|]. eapply good_ext; [|apply normalize_rat_good].
+        rewrite setfrac_pow. unfold rinv. rewrite Qred_correct, Qinv_power.
+        rewrite to_rat_qv by exact He. reflexivity.
+    + apply Z.ltb_ge in N. cbn [map_result map from_go].
+      eexists. split; [reflexivity|]. eapply good_ext; [|apply normalize_rat_good].
+      destruct ez as [|p|p]; try lia.
+      * cbn [zpow]. unfold setfrac. rewrite Qred_correct. reflexivity.
+      * rewrite setfrac_pow, to_rat_qv by exact He. reflexivity.
+Qed.
+
+Theorem pow_exact b e : exactc b -> exactc e -> is_exact_int e = true ->
+  ~ (is_int0 b = true /\ to_big e < 0) ->
+  exists v, call CPow [b; e] None = RVals [v] /\ good v (Qpower (qv b) (to_big e)).
+Proof. intros Hb He Ie Hd. pose proof Hb as [Eb Cb].
+  unfold call, call_raw, pow. rewrite Eb, Ie. cbn [andb].
+  assert (G : forall ez, ez = to_big e ->
+     exists v, map_result from_go (pow_general b ez) = RVals [v] /\ good v (Qpower (qv b) (to_big e))).
+  { intros ez ->. apply pow_general_good; assumption. }
+  destruct e as [z|z| |]; try discriminate; cbn [to_big] in *.
+  - destruct z as [|p|p].
+    + cbn [map_result map from_go]. eexists. split; [reflexivity|]. repeat split; reflexivity.
+    + destruct p; try (apply (G _ eq_refl)).
+      cbn [map_result map]. eexists. split; [reflexivity|].
+      rewrite (good_from_go _ _ (good_self _ Hb)). eapply good_ext; [|apply good_self; exact Hb]. reflexivity.
+    + destruct p; try (apply (G _ eq_refl)).
+      rewrite q_is0_qv by exact Hb. destruct (is_int0 b) eqn:B0.
+      * exfalso. apply Hd. split; [reflexivity|lia].
+      * cbn [map_result map from_go]. eexists. split; [reflexivity|].
+        eapply good_ext; [|apply normalize_rat_good].
+        unfold rinv. rewrite Qred_correct, to_rat_qv by exact Eb. reflexivity.
+  - apply (G _ eq_refl).
+Qed.
+
+(* the faithful model panics where the property demands an exception *)
+Theorem pow_zero_neg_panics e : is_exact_int e = true -> to_big e < 0 ->
+  call CPow [NInt 0; e] None = RPanic.
+Proof. intros Ie N. destruct e as [z|z| |]; try discriminate; cbn [to_big] in N;
+  destruct z as [|p|p]; try lia; [destruct p|]; reflexivity. Qed.
+
+(* ------------------------------------------------------------------ *)
+(* range on machine ints: the wrap at the top of the int range *)
+Lemma wrap_over z : max_int < z <= max_int + two64 -> wrap z = z - two64.
+Proof. intros H. unfold wrap, min_int, max_int, two64 in *.
+  rewrite <- (Z.mod_add _ (-1)) by lia. rewrite Z.mod_small; lia. Qed.
+
+Lemma seq_map_S {A} (f : nat -> A) n :
+  map f (seq 0 (S n)) = f O :: map (fun k => f (S k)) (seq 0 n).
+Proof. cbn [seq map]. rewrite <- seq_shift, map_map. reflexivity. Qed.
+
+(* what the ascending loop emits, whenever it finishes within its fuel *)
+Lemma range_int_up_ok e st : in_int e = true -> in_int st = true -> 0 < st ->
+  forall fuel cur vs, in_int cur = true ->
+  range_int_up fuel cur e st = Some vs ->
+  vs = map (fun k => NInt (cur + Z.of_nat k * st)) (seq 0 (length vs))
+  /\ (forall k, (k < length vs)%nat -> cur + Z.of_nat k * st < e)
+  /\ e <= cur + Z.of_nat (length vs) * st.
+Proof. intros He Hst Hpos. pose proof He as He'. pose proof Hst as Hst'.
+  apply in_int_iff in He'. apply in_int_iff in Hst'.
+  induction fuel as [|fuel IH]; intros cur vs Hc H; [discriminate|].
+  pose proof Hc as Hc'. apply in_int_iff in Hc'. cbn [range_int_up] in H.
+  destruct (cur <? e) eqn:L.
+  - apply Z.ltb_lt in L.
+    assert (W : (cur + st <= max_int /\ wrap (cur + st) = cur + st)
+                \/ (max_int < cur + st /\ wrap (cur + st) = cur + st - two64)).
+    { destruct (Z_le_gt_dec (cur + st) max_int) as [G|G].
+      - left. split; [exact G|]. apply wrap_id, in_int_iff. unfold min_int, max_int in *. lia.
+      - right. split; [lia|]. apply wrap_over. unfold min_int, max_int, two64 in *. lia. }
+    destruct (wrap (cur + st) <=? cur) eqn:B.
+    + apply Z.leb_le in B. inversion H; subst vs. cbn [length seq map].
+      rewrite Z.mul_0_l, Z.add_0_r. split; [reflexivity|]. split.
+      * intros k Hk. assert (k = O) by lia. subst k. cbn. lia.
+      * destruct W as [[G E]|[G E]]; rewrite E in B; unfold min_int, max_int, two64 in *; lia.
+    + apply Z.leb_gt in B. destruct W as [[G E]|[G E]]; rewrite E in B, H;
+        [|unfold min_int, max_int, two64 in *; lia].
+      destruct (range_int_up fuel (cur + st) e st) as [r|] eqn:R; [|discriminate].
+      inversion H; subst vs.
+      assert (Hn : in_int (cur + st) = true) by (apply in_int_iff; unfold min_int, max_int in *; lia).
+      destruct (IH _ _ Hn R) as (I1 & I2 & I3). cbn [length]. rewrite seq_map_S.
+      split; [|split].
+      * rewrite Z.mul_0_l, Z.add_0_r. f_equal. rewrite I1 at 1. apply map_ext. intros k.
+        f_equal. lia.
+      * intros k Hk. destruct k as [|k]; [cbn; lia|]. specialize (I2 k ltac:(lia)). lia.
+      * lia.
+  - apply Z.ltb_ge in L. inversion H; subst vs. cbn [length seq map].
+    split; [reflexivity|]. split; [intros k Hk; lia|lia].
+Qed.
+
+(* range on machine ints with a positive step, through the whole command:
+   every value is start + k*step, all are before the end, and the next one would
+   not be — also when start + k*step passes 2^63 - 1 (the loop leaves instead of
+   wrapping).  Partial: stated for runs on which the model's loop does not run out
+   of its fuel (no such run is known; the correspondence check reports one as a
+   mismatch). *)
+Theorem range_exact_partial s e st vs :
+  in_int s = true -> in_int e = true -> in_int st = true -> s <= e -> 0 < st ->
+  call CRange [NInt s; NInt e] (Some (NInt st)) = RVals vs ->
+  vs = map (fun k => NInt (s + Z.of_nat k * st)) (seq 0 (length vs))
+  /\ (forall k, (k < length vs)%nat -> s + Z.of_nat k * st < e)
+  /\ e <= s + Z.of_nat (length vs) * st.
+Proof. intros Hs He Hst Hle Hpos H.
+  unfold call, call_raw, range, range_nums in H. cbn [unify unify_type fold_left tmax num_type rank map to_int Z.ltb Z.compare] in H.
+  apply Z.leb_le in Hle. rewrite Hle in H.
+  assert (N : (st <=? 0) = false) by (apply Z.leb_gt; exact Hpos). rewrite N in H.
+  destruct (range_int_up _ s e st) as [l|] eqn:R; cbn [of_fuel map_result] in H; [|discriminate].
+  destruct (range_int_up_ok e st He Hst Hpos _ _ _ Hs R) as (I1 & I2 & I3).
+  assert (Hid : map from_go (map from_go l) = l).
+  { rewrite I1, !map_map. apply map_ext. intros k. reflexivity. }
+  inversion H as [Hv]. rewrite Hid in *. auto.
+Qed.
+
+(* ------------------------------------------------------------------ *)
+(* math: ceil floor trunc round round-to-even *)
+Definition rspec (md : rmode) (q : Q) : Z :=
+  match md with
+  | RFloor => Qfloor q | RCeil => Qceiling q | RTrunc => q_trunc q
+  | RRound => q_round q | RRoundEven => q_round_even q
+  end.
+Definition rcmd (md : rmode) : cmd :=
+  match md with
+  | RFloor => CFloor | RCeil => CCeil | RTrunc => CTrunc
+  | RRound => CRound | RRoundEven => CRoundEven
+  end.
+
+Lemma call_rcmd md n : call (rcmd md) [n] None = RVals [from_go (integerize md n)].
+Proof. destruct md; reflexivity. Qed.
+
+Lemma rspec_int md z : rspec md (z # 1) = z.
+Proof. destruct md; unfold rspec, q_trunc, q_round, q_round_even, q_lt, Qceiling, Qfloor, Qle_bool, Qminus, Qplus, Qopp;
+  cbn [Qnum Qden]; rewrite ?Z.div_1_r; try lia.
+  - destruct (_ <=? _); rewrite ?Z.div_1_r; lia.
+  - destruct (_ <=? _).
+    + symmetry. apply Z.div_unique with (r := 1); lia.
+    + match goal with |- - (?X / ?Y) = _ =>
+        assert (E : X / Y = - z) by (symmetry; apply Z.div_unique with (r := 1); [change (Z.pos (1 * 2)) with 2; lia|change (Z.pos (1 * 2)) with 2; lia]);
+        rewrite E; lia end.
+  - replace (z * 1 + - z * 1) with 0 by lia. reflexivity.
+Qed.
+
+Lemma rat_nonint n d : canonical (NRat (n # d)) = true -> n mod Zpos d <> 0.
+Proof. cbn [canonical]. intros H. apply andb_true_iff in H as [H1 H2]. apply q_eqb_eq in H1.
+  apply Qred_iff in H1. cbn [Qnum Qden] in *. intros M.
+  apply Z.mod_divide in M; [|lia]. apply Z.divide_gcd_iff in M; [|lia].
+  rewrite Z.gcd_comm in M. rewrite M in H1. apply negb_true_iff, Pos.eqb_neq in H2. congruence. Qed.
+
+Lemma rat_round_floor q : rat_round RFloor q = Qfloor q.
+Proof. destruct q; reflexivity. Qed.
+
+Lemma rat_round_ceil n d : n mod Zpos d <> 0 -> rat_round RCeil (n # d) = Qceiling (n # d).
+Proof. intros M. unfold rat_round, Qceiling, Qfloor, Qopp. cbn [Qnum Qden].
+  rewrite Z.div_opp_l_nz by (try lia; exact M). lia. Qed.
+
+Lemma rat_round_trunc n d : n mod Zpos d <> 0 -> rat_round RTrunc (n # d) = q_trunc (n # d).
+Proof. intros M. unfold rat_round, q_trunc, Qle_bool. cbn [Qnum Qden]. rewrite Z.mul_1_r, Z.mul_0_l.
+  destruct (0 <=? n) eqn:S.
+  - apply Z.leb_le in S. unfold Qfloor. apply Z.quot_div_nonneg; lia.
+  - apply Z.leb_gt in S. rewrite <- rat_round_ceil by exact M. unfold rat_round. cbn [Qnum Qden].
+    assert (Q1 : Z.quot n (Z.pos d) = - ((- n) / Z.pos d)).
+    { replace n with (- (- n)) at 1 by lia. rewrite Z.quot_opp_l by lia.
+      rewrite Z.quot_div_nonneg by lia. reflexivity. }
+    rewrite Q1, Z.div_opp_l_nz by (try lia; exact M). lia. Qed.
+
+(* floor((a/d) + 1/2) in terms of a/d and a mod d *)
+Lemma half_up_div a d : 0 < d ->
+  (a * 2 + d) / (d * 2) = if 2 * (a mod d) <? d then a / d else a / d + 1.
+Proof. intros Hd. pose proof (Z.div_mod a d ltac:(lia)) as E. pose proof (Z.mod_pos_bound a d Hd) as B.
+  destruct (2 * (a mod d) <? d) eqn:C; [apply Z.ltb_lt in C|apply Z.ltb_ge in C]; symmetry.
+  - apply Z.div_unique with (r := 2 * (a mod d) + d); lia.
+  - apply Z.div_unique with (r := 2 * (a mod d) - d); lia. Qed.
+
+(* truncated division of a negative numerator through the positive one *)
+Lemma quot_rem_neg n d : n < 0 -> 0 < d ->
+  Z.quot n d = - ((- n) / d) /\ Z.rem n d = - ((- n) mod d).
+Proof. intros Hn Hd. replace n with (- (- n)) at 1 3 by lia.
+  rewrite Z.quot_opp_l, Z.rem_opp_l by lia.
+  rewrite Z.quot_div_nonneg, Z.rem_mod_nonneg by lia. split; reflexivity. Qed.
+
+Lemma rat_round_round n d : rat_round RRound (n # d) = q_round (n # d).
+Proof. unfold rat_round, q_round, Qle_bool, Qceiling, Qfloor, Qminus, Qplus, Qopp. cbn [Qnum Qden].
+  rewrite Z.mul_1_r, Z.mul_0_l. rewrite Pos2Z.inj_mul. change (Z.pos 2) with 2.
+  destruct (0 <=? n) eqn:S.
+  - apply Z.leb_le in S. assert (N : (n <? 0) = false) by (apply Z.ltb_ge; lia). rewrite N.
+    rewrite Z.quot_div_nonneg, Z.rem_mod_nonneg by lia.
+    rewrite Z.mul_1_l, half_up_div by lia.
+    pose proof (Z.mod_pos_bound n (Z.pos d) ltac:(lia)). rewrite Z.abs_eq by lia. reflexivity.
+  - apply Z.leb_gt in S. assert (N : (n <? 0) = true) by (apply Z.ltb_lt; lia). rewrite N.
+    destruct (quot_rem_neg n (Z.pos d) S ltac:(lia)) as [-> ->].
+    match goal with |- context [ ?X / (Z.pos d * 2) ] => replace X with ((- n) * 2 + Z.pos d) by lia end.
+    rewrite half_up_div by lia.
+    pose proof (Z.mod_pos_bound (- n) (Z.pos d) ltac:(lia)).
+    replace (Z.abs (2 * - (- n mod Z.pos d))) with (2 * (- n mod Z.pos d)) by lia.
+    destruct (2 * (- n mod Z.pos d) <? Z.pos d); lia. Qed.
+
+Definition even_floor_form (n dd : Z) : Z :=
+  if 2 * (n mod dd) <? dd then n / dd
+  else if dd <? 2 * (n mod dd) then n / dd + 1
+  else if Z.even (n / dd) then n / dd else n / dd + 1.
+
+Lemma q_round_even_floor n d : q_round_even (n # d) = even_floor_form n (Z.pos d).
+Proof. unfold q_round_even, even_floor_form, q_lt, Qle_bool, Qfloor, Qminus, Qplus, Qopp. cbn [Qnum Qden].
+  rewrite Pos2Z.inj_mul. change (Z.pos 1) with 1.
+  assert (E : n * 1 + - (n / Z.pos d) * Z.pos d = n mod Z.pos d) by (rewrite Z.mod_eq by lia; lia).
+  rewrite E. pose proof (Z.mod_pos_bound n (Z.pos d) ltac:(lia)) as B.
+  destruct (Z.leb_spec (1 * (Z.pos d * 1)) (n mod Z.pos d * 2));
+  destruct (Z.ltb_spec (2 * (n mod Z.pos d)) (Z.pos d)); try lia; cbn [negb]; try reflexivity.
+  destruct (Z.leb_spec (n mod Z.pos d * 2) (1 * (Z.pos d * 1)));
+  destruct (Z.ltb_spec (Z.pos d) (2 * (n mod Z.pos d))); try lia; cbn [negb]; reflexivity. Qed.
+
+Lemma rat_round_even n d : rat_round RRoundEven (n # d) = q_round_even (n # d).
+Proof. rewrite q_round_even_floor. unfold rat_round, even_floor_form. cbn [Qnum Qden].
+  set (dd := Z.pos d). assert (Hd : 0 < dd) by (unfold dd; lia).
+  destruct (n <? 0) eqn:S.
+  - apply Z.ltb_lt in S. destruct (quot_rem_neg n dd S Hd) as [-> ->].
+    pose proof (Z.mod_pos_bound (- n) dd Hd) as B.
+    replace (Z.abs (2 * - (- n mod dd))) with (2 * (- n mod dd)) by lia.
+    rewrite Z.even_opp.
+    destruct (Z.eq_dec (- n mod dd) 0) as [Z0|NZ].
+    + assert (E1 : n / dd = - (- n / dd)).
+      { replace n with (- (- n)) at 1 by lia. apply Z.div_opp_l_z; [lia|exact Z0]. }
+      assert (E2 : n mod dd = 0).
+      { replace n with (- (- n)) at 1 by lia. apply Z.mod_opp_l_z; [lia|exact Z0]. }
+      rewrite E1, E2, Z0. cbn [Z.mul].
+      assert (L : (0 <? dd) = true) by (apply Z.ltb_lt; lia). rewrite L. reflexivity.
+    + assert (E1 : n / dd = - (- n / dd) - 1).
+      { replace n with (- (- n)) at 1 by lia. apply Z.div_opp_l_nz; [lia|exact NZ]. }
+      assert (E2 : n mod dd = dd - (- n mod dd)).
+      { replace n with (- (- n)) at 1 by lia. apply Z.mod_opp_l_nz; [lia|exact NZ]. }
+      rewrite E1, E2.
+      assert (P : Z.even (- (- n / dd) - 1) = negb (Z.even (- n / dd))).
+      { rewrite Z.even_sub, Z.even_opp. destruct (Z.even (- n / dd)); reflexivity. }
+      rewrite P.
+      destruct (Z.ltb_spec (2 * (- n mod dd)) dd); destruct (Z.eqb_spec (2 * (- n mod dd)) dd);
+      destruct (Z.ltb_spec (2 * (dd - - n mod dd)) dd); destruct (Z.ltb_spec dd (2 * (dd - - n mod dd)));
+      try lia; cbn [orb andb]; try lia; destruct (Z.even (- n / dd)); cbn [negb]; lia.
+  - apply Z.ltb_ge in S. rewrite Z.quot_div_nonneg, Z.rem_mod_nonneg by lia.
+    pose proof (Z.mod_pos_bound n dd Hd) as B. rewrite Z.abs_eq by lia.
+    destruct (Z.ltb_spec (2 * (n mod dd)) dd); destruct (Z.eqb_spec (2 * (n mod dd)) dd);
+    destruct (Z.ltb_spec dd (2 * (n mod dd))); try lia; cbn [orb andb]; try reflexivity;
+    destruct (Z.even (n / dd)); reflexivity. Qed.
+
+Lemma rat_round_spec md n d : canonical (NRat (n # d)) = true -> rat_round md (n # d) = rspec md (n # d).
+Proof. intros Hc. pose proof (rat_nonint n d Hc) as M. destruct md; cbn [rspec].
+  - apply rat_round_floor.
+  - apply rat_round_ceil, M.
+  - apply rat_round_trunc, M.
+  - apply rat_round_round.
+  - apply rat_round_even. Qed.
+
+Theorem rounding_exact md n : exactc n ->
+  exists v, call (rcmd md) [n] None = RVals [v] /\ good v (rspec md (qv n) # 1).
+Proof. intros Hn. pose proof Hn as [He Hc]. rewrite call_rcmd. eexists. split; [reflexivity|].
+  destruct n as [z|z|q|f]; try discriminate; cbn [integerize].
+  - rewrite (good_from_go _ _ (good_self _ Hn)). eapply good_ext; [|apply good_self; exact Hn].
+    cbn [qv]. rewrite rspec_int. reflexivity.
+  - rewrite (good_from_go _ _ (good_self _ Hn)). eapply good_ext; [|apply good_self; exact Hn].
+    cbn [qv]. rewrite rspec_int. reflexivity.
+  - destruct q as [a d]. pose proof Hc as Hc'. cbn [canonical] in Hc'.
+    apply andb_true_iff in Hc' as [_ H2]. cbn [Qden] in *. apply negb_true_iff in H2. rewrite H2.
+    cbn [from_go]. eapply good_ext; [|apply normalize_big_good].
+    cbn [qv]. rewrite rat_round_spec by exact Hc. reflexivity.
+Qed.
+
+(* ------------------------------------------------------------------ *)
+(* the oracle is sound for the Prop-level reading of the property *)
+Definition val_good (v : num) (q : Q) : Prop :=
+  is_exact v = true /\ canon_ok v = true /\ (qv v == q)%Q.
+
+Definition Spec_C11 (c : cmd) (args : list num) (step : option num) (obs : result) : Prop :=
+  match expect_C11 c args step with
+  | XVals qs => exists vs, obs = RVals vs /\ Forall2 val_good vs qs
+  | XRaise => exists e, obs = RErr e
+  | XAny => True
+  end.
+
+Lemma vals_ok_sound vs : forall qs, vals_ok vs qs = true -> Forall2 val_good vs qs.
+Proof. induction vs as [|v vs IH]; intros [|q qs] H; simpl in H; try discriminate; constructor.
+  - apply andb_true_iff in H as [H _]. unfold val_ok in H. apply andb_true_iff in H as [H1 H2].
+    repeat split; [|exact H1|apply Qeq_bool_iff; exact H2].
+    destruct v; simpl in *; try reflexivity; discriminate.
+  - apply andb_true_iff in H as [_ H]. apply IH, H. Qed.
+
+Theorem check_C11_sound c args step obs : check_C11 c args step obs = true -> Spec_C11 c args step obs.
+Proof. unfold check_C11, Spec_C11. destruct (expect_C11 c args step) as [qs| |]; intros H.
+  - destruct obs as [vs| | | | |]; try discriminate. exists vs. split; [reflexivity|apply vals_ok_sound, H].
+  - destruct obs as [|e| | | |]; try discriminate. exists e. reflexivity.
+  - exact I. Qed.
+
+(* a canonical value passes the oracle's value-based canonicity test *)
+Lemma canonical_canon_ok v : is_exact v = true -> canonical v = true -> canon_ok v = true.
+Proof. destruct v as [z|z|q|f]; simpl; intros He Hc; try exact Hc; try discriminate.
+  apply andb_true_iff in Hc as [H1 H2]. apply q_eqb_eq in H1. unfold q_isint. rewrite H1. exact H2. Qed.
+
+Lemma good_val_good v q : good v q -> val_good v q.
+Proof. intros (a & b & c). repeat split; auto. apply canonical_canon_ok; assumption. Qed.
+
+(* result_canonical: whatever an exact command outputs is canonical *)
+Theorem result_canonical v q : good v q ->
+  match v with
+  | NInt z => min_int <= z <= max_int
+  | NBig z => ~ (min_int <= z <= max_int)
+  | NRat r => Qred r = r /\ Qden r <> 1%positive
+  | NFloat _ => False
+  end.
+Proof. intros (a & b & c). destruct v as [z|z|r|f]; cbn [canonical is_exact] in *; try discriminate.
+  - apply in_int_iff, b.
+  - intros H. apply in_int_iff in H. rewrite H in b. discriminate.
+  - apply andb_true_iff in b as [b1 b2]. split; [apply q_eqb_eq, b1|].
+    apply negb_true_iff, Pos.eqb_neq in b2. exact b2. Qed.
+
+(* ------------------------------------------------------------------ *)
+(* termination of the ascending int loop within the model's fuel *)
+Definition zceil (a b : Z) : Z := - ((- a) / b).
+
+Lemma zceil_step a b : 0 < b -> zceil (a - b) b = zceil a b - 1.
+Proof. intros Hb. unfold zceil. replace (- (a - b)) with (- a + 1 * b) by lia.
+  rewrite Z.div_add by lia. lia. Qed.
+
+Lemma zceil_pos a b : 0 < b -> 0 < a -> 0 < zceil a b.
+Proof. intros Hb Ha. unfold zceil.
+  assert ((- a) / b < 0) by (apply Z.div_lt_upper_bound; lia). lia. Qed.
+
+Lemma range_int_up_terminates e st : in_int st = true -> 0 < st ->
+  forall fuel cur, in_int cur = true -> (Z.to_nat (zceil (e - cur) st) < fuel)%nat ->
+  range_int_up fuel cur e st <> None.
+Proof. intros Ist Hst. pose proof Ist as Ist'. apply in_int_iff in Ist'.
+  induction fuel as [|fuel IH]; intros cur Ic Hf; [lia|].
+  pose proof Ic as Ic'. apply in_int_iff in Ic'.
+  cbn [range_int_up]. destruct (cur <? e) eqn:L; [|discriminate].
+  apply Z.ltb_lt in L. destruct (wrap (cur + st) <=? cur) eqn:B; [discriminate|].
+  apply Z.leb_gt in B.
+  assert (W : cur + st <= max_int /\ wrap (cur + st) = cur + st).
+  { destruct (Z_le_gt_dec (cur + st) max_int) as [G|G].
+    - split; [exact G|]. apply wrap_id, in_int_iff. unfold min_int, max_int in *. lia.
+    - exfalso. rewrite wrap_over in B by (unfold min_int, max_int, two64 in *; lia).
+      unfold min_int, max_int, two64 in *. lia. }
+  destruct W as [G W]. rewrite W.
+  assert (In' : in_int (cur + st) = true) by (apply in_int_iff; unfold min_int, max_int in *; lia).
+  specialize (IH (cur + st) In').
+  destruct (range_int_up fuel (cur + st) e st) eqn:R; [discriminate|].
+  exfalso. apply IH; [|reflexivity].
+  replace (e - (cur + st)) with (e - cur - st) by lia. rewrite zceil_step by lia.
+  pose proof (zceil_pos (e - cur) st Hst ltac:(lia)). lia.
+Qed.
+
+Lemma range_fuel_int s e st : s <= e -> 0 < st ->
+  range_fuel (s # 1) (e # 1) (st # 1) = (Z.to_nat (zceil (e - s) st) + 1)%nat.
+Proof. intros Hle Hst. unfold range_fuel, zceil. f_equal. f_equal.
+  destruct st as [|p|p]; try lia.
+  unfold Qceiling, Qfloor, Qdiv, Qmult, Qinv, Qabs, Qminus, Qplus, Qopp. cbn [Qnum Qden Z.abs].
+  rewrite Z.abs_eq by lia. change (1 * 1 * p)%positive with p.
+  replace (- ((e * 1 + - s * 1) * 1)) with (- (e - s)) by lia. reflexivity. Qed.
+
+(* total correctness of range on machine ints, ascending, explicit step *)
+Theorem range_int_up_total s e st :
+  in_int s = true -> in_int e = true -> in_int st = true -> s <= e -> 0 < st ->
+  exists vs, call CRange [NInt s; NInt e] (Some (NInt st)) = RVals vs
+  /\ vs = map (fun k => NInt (s + Z.of_nat k * st)) (seq 0 (length vs))
+  /\ (forall k, (k < length vs)%nat -> s + Z.of_nat k * st < e)
+  /\ e <= s + Z.of_nat (length vs) * st.
+Proof. intros Hs He Hst Hle Hpos.
+  assert (T : exists l, range_int_up (range_fuel (s # 1) (e # 1) (st # 1)) s e st = Some l).
+  { rewrite range_fuel_int by assumption.
+    pose proof (range_int_up_terminates e st Hst Hpos (Z.to_nat (zceil (e - s) st) + 1) s Hs ltac:(lia)) as N.
+    destruct (range_int_up _ s e st) as [l|]; [exists l; reflexivity|congruence]. }
+  destruct T as [l R].
+  assert (C : call CRange [NInt s; NInt e] (Some (NInt st)) = RVals (map from_go (map from_go l))).
+  { unfold call, call_raw, range, range_nums.
+    cbn [unify unify_type fold_left tmax num_type rank map to_int Z.ltb Z.compare].
+    apply Z.leb_le in Hle. rewrite Hle.
+    assert (N : (st <=? 0) = false) by (apply Z.leb_gt; exact Hpos). rewrite N, R. reflexivity. }
+  exists (map from_go (map from_go l)). split; [exact C|].
+  apply (range_exact_partial s e st _ Hs He Hst Hle Hpos C).
+Qed.
